@@ -17,7 +17,8 @@ CLAIMS = {
     'C08': ("Theorems: lexer total (C10), parser never panics and its goto loop terminates (C09), binder never panics, every coercion the "
             "binder lets through is defined, and for ALL 85 functions of the regenerated table exec never panics and returns the declared "
             "type on every well-bound argument vector; Props/C08File.file_total composes the layers: processFile never panics on ANY byte "
-            "string. Correspondence/oracle: every function x parameter x 15 value types + boundary values "
+            "string; Props/C08Batch (command-line loop, Model/Batch.lean): reports independent of the other inputs, exit status 1 iff some "
+            "input failed wherever it stands, good inputs' outputs complete and failed ones absent. Correspondence/oracle: every function x parameter x 15 value types + boundary values "
             "in-process, method sequences, reference shapes, source fuzz incl. invalid UTF-8, batches, nesting probes; fail-safe contract "
             "(exit status, diagnostic position, output removal) judged on the real binary. Native stack exhaustion is outside the model "
             "(known finding K04).", "7 C08", "Lean proof (no-panic theorems per layer, per-function over the regenerated table) + panic census on the real code (partial: native stack)"),
@@ -53,7 +54,8 @@ CLAIMS = {
             "(all four units). Correspondence + Spec.parsePcap times of real files incl. twin programs with an inserted jump.", "7 C12",
             "Lean proof (clock invariants, shift simulation) + twin-program differential runs"),
     'C19': ("Theorems: BufWriter/device accounting; for every program and every budget k < output length the run is a failure (Io), never "
-            "success, never panic; success implies the complete file; device content always a prefix. Fault enumeration on the real binary: "
+            "success, never panic; success implies the complete file; device content always a prefix; inside a batch every I/O fault makes the "
+            "exit status 1 whatever follows (C08Batch.io_fault_exit). Fault enumeration on the real binary: "
             "RLIMIT_FSIZE at every byte offset (small programs) / all buffer boundaries +-1 (large), /dev/full, missing directories, "
             "missing input and data files. OS write(2)/BufWriter behaviour is an assumption confirmed by the enumeration.", "7 C19",
             "Lean proof (lock-step simulation of budgeted vs unlimited writer) + fault enumeration on the real binary"),
